@@ -51,6 +51,7 @@ def follow_up(res, v, e, c, rng, replay, label, steps=2):
                         "cells": [[k, [w.id for w in x.vertices]] for k, x in c.items()]}
             sink = []
             c11.run_case(C.Result("C11"), spec_now, ne, True, sink, label)
+            del c11.PENDING_CHAIN[:]     # (attribution of the copy's outcome is C11's business; here only the correspondence is kept)
             MODEL_EXPRS.extend(sink)
         try:
             with impl.quiet():
